@@ -37,6 +37,10 @@ def hosts(tier: str) -> t.Dict[str, dict]:
     # the retrying node's class derives from another node class of the pipeline that has different retry settings and runs first
     h['inherits'] = {'nodes': {'I': P(('x', 'plain')), 'B': dict(P(('p', 'in', 'I')), attempts=2, delay=0.3, exceptions=['E2']),
                                'R': dict(P(('p', 'in', 'B')), extends='B'), 'O': P(('r', 'in', 'R'))}, 'input': 'I', 'output': 'O'}
+    # the retrying node is constructed through its default_factory (constructor argument only the factory supplies): every
+    # attempt and get_default must run on a factory-built instance
+    h['factory'] = {'nodes': {'I': P(('x', 'plain')), 'R': dict(P(('p', 'in', 'I')), factory=True), 'O': P(('r', 'in', 'R'))},
+                    'input': 'I', 'output': 'O'}
     if tier != 'quick':
         h['output'] = {'nodes': {'I': P(('x', 'plain')), 'R': P(('p', 'in', 'I'))}, 'input': 'I', 'output': 'R'}
         h['two-retrying'] = {'nodes': {'I': P(('x', 'plain')), 'R': P(('p', 'in', 'I')),
